@@ -795,13 +795,15 @@ func TestVerifC16Cache(t *testing.T) {
 // TestVerifC16Concurrent: W writers + R readers on overlapping key windows with
 // a small capacity. During the run Len <= capacity + W is sampled; every value a
 // reader sees was stored under that key; after writers stop Len == reachable.
+var vfC16Stuck atomic.Bool
+
 func TestVerifC16Concurrent(t *testing.T) {
 	vfC16Init()
 	defer vfstat.Flush()
 	vfstat.Quiet()
 	const U = "C16.concurrent"
 	rapid.Check(t, func(rt *rapid.T) {
-		capacity := rapid.SampledFrom([]int{2, 4, 8, 16, 64}).Draw(rt, "cap")
+		capacity := rapid.SampledFrom([]int{1, 2, 4, 8, 16, 64}).Draw(rt, "cap")
 		W := rapid.IntRange(2, 8).Draw(rt, "writers")
 		R := rapid.IntRange(1, 3).Draw(rt, "readers")
 		nkeys := rapid.SampledFrom([]int{4, 12, 40, 200}).Draw(rt, "nkeys")
@@ -886,7 +888,21 @@ func TestVerifC16Concurrent(t *testing.T) {
 				}
 			}(w)
 		}
-		wg.Wait()
+		// a writer never holds one segment's lock while it waits for another's: if it did, two writers spilling into each
+		// other's segments would wait for each other for good. The scripts take milliseconds; a minute is "for good".
+		finished := make(chan struct{})
+		go func() { wg.Wait(); close(finished) }()
+		wait := 60 * time.Second
+		if vfC16Stuck.Load() {
+			wait = 2 * time.Second // the verdict is in; shrinking need not sit out a minute per attempt
+		}
+		select {
+		case <-finished:
+		case <-time.After(wait):
+			stop.Store(true)
+			vfC16Stuck.Store(true)
+			rt.Fatalf("capacity %d, %d writers, %d keys: the writers have not finished a minute after they started (%d operations each) - they wait on one another's segment locks", capacity, W, nkeys, opsPer)
+		}
 		stop.Store(true)
 		rg.Wait()
 		if b := bad.Load(); b != nil {
